@@ -34,6 +34,7 @@ program * program_new()
     value->msg_count = 0;
     value->msg_array_size = 0;
     value->msg_array = NULL;
+    value->file_name = NULL;
     value->module_value = module_new();
 
     return value;
@@ -53,6 +54,10 @@ void program_delete(program * value)
             free(value->msg_array[i]);
         }
         free(value->msg_array);
+    }
+    if (value->file_name != NULL)
+    {
+        free(value->file_name);
     }
     free(value);
 }
